@@ -14,6 +14,10 @@
       FALLBACK_SCSV    (server, after version selection, before suite selection)
       second-ClientHello comparison after HelloRetryRequest
       every comparison of a received Finished.verify_data / PSK binder.
+(d) client_hello_sites : every `X.create(` on a ClientHello object in _clientSendClientHello with the enclosing
+    conditions and the text of the version, session-id and cipher-suite arguments (which list variable goes on
+    the wire in each branch); client_suite_sites : every statement of that function that binds or mutates
+    `cipherSuites` / `wireCipherSuites` (where the renegotiation SCSV and TLS_FALLBACK_SCSV are added).
 (c) server_hello_sites : every `X.create(` on a ServerHello object with the text of the random
     argument (which ServerHello constructions can carry the sentinel at all).
 
@@ -29,7 +33,7 @@ from pylite import Refuse  # noqa: E402
 REPO = os.path.realpath(os.environ.get('VERIF_REPO', '/repo'))
 FILES = ['tlslite/tlsrecordlayer.py', 'tlslite/tlsconnection.py', 'tlslite/handshakehelpers.py']
 ANCHOR_FUNCS = {'tlslite/tlsrecordlayer.py': ['_sendMsg', '_queue_message', '_getMsg', '_handshakeStart'],
-                'tlslite/tlsconnection.py': ['_clientGetServerHello', '_serverGetClientHello',
+                'tlslite/tlsconnection.py': ['_clientSendClientHello', '_clientGetServerHello', '_serverGetClientHello',
                                              '_handshakeClientAsyncHelper', '_handshakeServerAsyncHelper',
                                              '_sendFinished', '_getFinished', '_clientTLS13Handshake',
                                              '_serverTLS13Handshake'],
@@ -52,6 +56,8 @@ class Walker(ast.NodeVisitor):
         self.hash_sites = []
         self.guard_sites = []
         self.sh_sites = []
+        self.ch_sites = []
+        self.suite_sites = []
         self.order = {}            # function -> list of (lineno, tag) for position facts
 
     # -- bookkeeping
@@ -66,6 +72,9 @@ class Walker(ast.NodeVisitor):
 
     def _fn(self):
         return self.func[-1] if self.func else '<module>'
+
+    def _conds(self):
+        return ' && '.join(c for c in self.conds if not c.startswith('for result'))
 
     def _mark(self, node, tag):
         self.order.setdefault(self._fn(), []).append((node.lineno, tag))
@@ -111,10 +120,23 @@ class Walker(ast.NodeVisitor):
             if tgt in ('serverHello', 'hrr', 'server_hello') and len(node.args) >= 2:
                 self.sh_sites.append((self.fname, self._fn(), tgt, src(node.args[0]), src(node.args[1])))
                 self._mark(node, 'server_hello_create')
+        if isinstance(f, ast.Attribute) and f.attr == 'create' and self._fn() == '_clientSendClientHello' \
+                and src(f.value) in ('clientHello', 'client_hello') and len(node.args) >= 4:
+            self.ch_sites.append((self.fname, self._fn(), self._conds(), src(node.args[0]), src(node.args[2]),
+                                  src(node.args[3])))
+        if isinstance(f, ast.Attribute) and self._fn() == '_clientSendClientHello' \
+                and src(f.value) in ('cipherSuites', 'wireCipherSuites'):
+            self.suite_sites.append((self.fname, self._fn(), self._conds(), src(node)))
         if isinstance(f, ast.Attribute) and f.attr in ('_clientGetServerHello', '_clientTLS13Handshake',
                                                        '_server_select_certificate', '_clientKeyExchange',
                                                        '_clientResume', '_serverTLS13Handshake'):
             self._mark(node, 'call:' + f.attr)
+        self.generic_visit(node)
+
+    def visit_AugAssign(self, node):
+        if isinstance(node.target, ast.Name) and node.target.id in ('cipherSuites', 'wireCipherSuites') \
+                and self._fn() == '_clientSendClientHello':
+            self.suite_sites.append((self.fname, self._fn(), self._conds(), src(node)))
         self.generic_visit(node)
 
     def visit_Assign(self, node):
@@ -127,6 +149,9 @@ class Walker(ast.NodeVisitor):
             self.guard_sites.append((self.fname, self._fn(), 'sentinel_write', src(t0) + ' = ' + node.value.id,
                                      ' && '.join(c for c in self.conds if not c.startswith('for result')), ''))
             self._mark(node, 'sentinel_write')
+        if isinstance(t0, ast.Name) and t0.id in ('cipherSuites', 'wireCipherSuites') \
+                and self._fn() == '_clientSendClientHello':
+            self.suite_sites.append((self.fname, self._fn(), self._conds(), src(node)))
         if isinstance(t0, ast.Name) and t0.id == 'version' and self._fn() == '_serverGetClientHello':
             self._mark(node, 'version_assigned')
         self.generic_visit(node)
@@ -163,7 +188,7 @@ class Walker(ast.NodeVisitor):
 
 class Sites(object):
     def translate(self):
-        hs, gs, shs, pos = [], [], [], []
+        hs, gs, shs, pos, chs, sus = [], [], [], [], [], []
         for rel in FILES:
             path = os.path.join(REPO, rel)
             try:
@@ -180,6 +205,8 @@ class Sites(object):
             hs += w.hash_sites
             gs += w.guard_sites
             shs += w.sh_sites
+            chs += w.ch_sites
+            sus += w.suite_sites
             # position facts: per function, the order of the marked statements
             for fn in sorted(w.order):
                 marks = [t for _, t in sorted(w.order[fn])]
@@ -198,6 +225,12 @@ class Sites(object):
         out.append('].\n')
         out.append('Definition guard_positions : list (string * string * string) := [')
         out.append(';\n'.join('  (%s, %s, %s)' % tuple(sl(x) for x in r) for r in pos))
+        out.append('].\n')
+        out.append('Definition client_hello_sites : list (string * string * string * string * string * string) := [')
+        out.append(';\n'.join('  (%s, %s, %s, %s, %s, %s)' % tuple(sl(x) for x in r) for r in chs))
+        out.append('].\n')
+        out.append('Definition client_suite_sites : list (string * string * string * string) := [')
+        out.append(';\n'.join('  (%s, %s, %s, %s)' % tuple(sl(x) for x in r) for r in sus))
         out.append('].')
         return '\n'.join(out)
 
